@@ -37,7 +37,7 @@ fn with_limit(key: &str, l: u32, via_element: bool, body: &str) -> (String, u32)
 
 fn loop_cases(tier: Tier) -> Vec<Case> {
     let mut v = Vec::new();
-    let ls: Vec<u32> = if tier == Tier::Quick { vec![0, 1, 2, 3, 5, 17, 1000] } else { (0..=40).chain([100, 1000]).collect() };
+    let ls: Vec<u32> = if tier == Tier::Quick { vec![0, 1, 2, 3, 5, 17, 1000, 1100] } else { (0..=40).chain([100, 1000, 1100]).collect() };
     for &l in &ls {
         for d in [-1i64, 0, 1] {
             let n = l as i64 + d;
@@ -79,7 +79,7 @@ fn loop_cases(tier: Tier) -> Vec<Case> {
 
 fn var_cases(tier: Tier) -> Vec<Case> {
     let mut v = Vec::new();
-    let ls: Vec<u32> = if tier == Tier::Quick { vec![1, 2, 3, 5, 17, 64, 1024] } else { (1..=40).chain([64, 100, 1024]).collect() };
+    let ls: Vec<u32> = if tier == Tier::Quick { vec![1, 2, 3, 5, 17, 64, 1024, 1300] } else { (1..=40).chain([64, 100, 1024, 1300]).collect() };
     for &l in &ls {
         for d in [-1i64, 0, 1] {
             let n = (l as i64 + d).max(0) as usize;
@@ -165,7 +165,8 @@ fn rendered_leaf(kinds: &[u8], n: usize) -> bool {
 
 fn depth_cases(tier: Tier) -> Vec<Case> {
     let mut v = Vec::new();
-    let ds: Vec<u32> = if tier == Tier::Quick { vec![2, 3, 5, 17, 100] } else { (2..=40).chain([64, 100]).collect() };
+    // (limits above the default can be asked for as well, through the configuration or a <config> element)
+    let ds: Vec<u32> = if tier == Tier::Quick { vec![2, 3, 5, 17, 100, 120] } else { (2..=40).chain([64, 100, 120, 150]).collect() };
     for &d in &ds {
         for delta in [-1i64, 0, 1] {
             let depth = (d as i64 + delta) as usize;
